@@ -9,6 +9,7 @@ directory, and its fragment names an element of the target.
 """
 from __future__ import annotations
 
+import os
 import re
 
 from vfw import fordapi, gen, render, site
@@ -105,7 +106,7 @@ def gen_pages(ch):
              "pages/other.md": "---\ntitle: Other\n---\n\nOther page. Back to [top](index.html) or [home](|url|/index.html) or [site](|url|).\n"}
     if ch.bool():
         pages["pages/index.md"] += "And [sub](sub/index.html).\n"
-        pages["pages/sub/index.md"] = "---\ntitle: Sub\n---\n\nSub page; up to [top](../index.html), media at |media|.\n"
+        pages["pages/sub/index.md"] = "---\ntitle: Sub\n---\n\nSub page; up to [top](../index.html).\n"
         pages["pages/sub/deep.md"] = "---\ntitle: Deep\n---\n\nDeep page; [sibling](index.html) and [page root](|page|/index.html).\n"
     return pages
 
@@ -194,6 +195,13 @@ def check(case) -> Result:
             idx = site.SiteIndex(root / case.get("outdir", "doc"))
             problems = idx.check_links()
             npages = len(idx.pages)
+            # a tree that can be moved holds no trace of where it was built: not in a URL, not in the text
+            built_at = os.path.realpath(str(root))
+            for rel, page in idx.pages.items():
+                if built_at in page.raw:
+                    i = page.raw.index(built_at)
+                    problems.append(("build-path-in-page", rel, "", "the page contains the path of the build directory: ..."
+                                     + re.sub(r"\s+", " ", page.raw[max(0, i - 60): i + len(built_at) + 40]).replace(built_at, "<BUILD>") + "..."))
     except SystemExit as e:
         res.fail("HARNESS:ford-exited", f"ford exited: {e}")
         return res
